@@ -54,6 +54,11 @@ def check(ctx):
                    f"site including calc's root loop), and the pass records every task it schedules", floor=2)
         ctx.guarded(o, lambda o, ps=ps: sched_fill.scheduled_once(ctx, o, ps))
 
+        o = ctx.ob(f'{n}_fill_books_where_search_accepts', 'R11',
+                   f"{n}: the search accepts a day on `free > 0` and the fill books on every visited day with `free > 0` (same test): a "
+                   f"scheduler-chosen start day always gets a reservation", floor=2)
+        ctx.guarded(o, lambda o, S=S: sched_fill.first_fit_and_greedy(ctx, o, S))
+
         o = ctx.ob(f'{n}_fraction_selector', 'R11',
                    f"{n}: every ledger query (search, fill, post-loop date fraction) uses the balancing selector, so dates and "
                    f"reservations refer to the same bookings", floor=3)
@@ -67,6 +72,13 @@ def check(ctx):
     # not a remembered one (C17's obligation, reused as in C08/C09)
     from . import c17 as _c17
     _c17._none_zero(ctx)
+
+    # the schedulers work on wbs.clone(): the copy of a task must carry the estimate and spent of the original (C10's obligation)
+    from . import c10 as _c10
+    o = ctx.ob('working_copy_keeps_estimate_and_spent', 'R9',
+               "Task.clone hands every private data field (estimate, spent) to the copy unconditionally: remaining work is computed "
+               "on the copy", floor=1)
+    ctx.guarded(o, lambda o: _c10._fields(ctx, o))
 
     psf = PassShape(ctx, FWD)
     o = ctx.ob('forward_first_day_and_today', 'R8',
@@ -143,7 +155,22 @@ def remaining(ctx, o, ps: PassShape):
                     continue
                 stn = ps.cfg.node_of(st)
                 # the None-test (and with it the fill) precedes the subtraction on every path
-                tests = [t for t, p in ps.cfg.conditions(stn) if any(match(f"{ps.task}.{attr} is None", x) for x in ast.walk(t))]
+                tests = [t for t, p in ps.cfg.conditions(stn)
+                         if any(match(f"{ps.task}.{attr} is None", x) for x in ast.walk(t)) or
+                         (ps.cfg.node_containing(t) is not None and
+                          any(match(f"{ps.task}.{attr} is None", x) for x in ast.walk(ps.ex.expand(t, ps.cfg.node_containing(t)))))]
+                # a hoisted test (`no_x = task.x is None; if no_x and is_leaf:`) is evaluated where the flag is defined
+                flagdefs = []
+                for t in tests:
+                    for x in ast.walk(t):
+                        if isinstance(x, ast.Name):
+                            d_ = ps.fl.unique_def(x.id, ps.cfg.node_containing(t))
+                            if d_ is not None and d_.value is not None and d_.node is not None and \
+                                    any(match(f"{ps.task}.{attr} is None", y) for y in ast.walk(d_.value)):
+                                flagdefs.append(d_)
+                if flagdefs and any(not ps.fl.no_def_between(f"{ps.task}.{attr}", d_.node, stn) for d_ in flagdefs):
+                    o.undecided(ps.f, st, st, f"task.{attr} is rewritten between the hoisted `is None` test and the default fill")
+                    continue
                 tn = ps.cfg.node_containing(tests[0]) if tests else None
                 if tn is None or not ps.cfg.dominates(tn, cn):
                     o.refute(ps.f, st, st, f"the default {attr} is not filled in before the remaining work is computed")
@@ -265,7 +292,11 @@ def backward_start(ctx, o, ps: PassShape):
                 if smaller:
                     o.site(ps.f, st, f"start keeps the user-fixed start{where} (the smaller of the two)")
                     continue
-            if len(fc) != 1 and sched_fill._unresolved(ps.f, case):
+            raised = _start_raised(ps, case, fill) if len(fc) != 1 else None
+            if raised is not None:
+                o.refute(ps.f, raised, raised, f"after the work was booked the start of the leaf is raised by `{src(raised)[:80]}`: reservations made by the "
+                                               f"fill loop lie before the returned start")
+            elif len(fc) != 1 and sched_fill._unresolved(ps.f, case):
                 o.undecided(ps.f, st, st, f"the start of a leaf is `{src(case)[:80]}`{where}, which contains a term the rule cannot resolve")
             elif len(fc) != 1:
                 o.refute(ps.f, st, st, f"the start of a leaf is `{src(case)[:80]}`{where}: not bounded by the date the fill loop returns, "
@@ -285,6 +316,26 @@ def _weakened(reg, pattern):
             core, p2 = core.operand, not p2
         if isinstance(core, ast.BoolOp) and isinstance(core.op, ast.Or) and p2 and any(match(pattern, v) for v in core.values):
             return core
+    return None
+
+
+def _start_raised(ps, case, fill):
+    """the leaf start is a local with several definitions: one of them `x = max(x, ..)` (or `x = max(.., x)`) taken after the
+    definition that holds the fill result - the start moves later than the first reserved day.  Returns that statement"""
+    names = [x.id for x in ast.walk(case) if isinstance(x, ast.Name) and len(ps.fl.defs_of(x.id)) > 1 and x.id not in ps.f.params]
+    for nm in names:
+        defs = ps.fl.defs_of(nm)
+        fills = [d for d in defs if d.kind == 'assign' and d.value is not None and any(
+            isinstance(x, ast.Call) and isinstance(x.func, ast.Attribute) and unmangle(x.func.attr) == fill.name for x in ast.walk(d.value))]
+        if not fills:
+            continue
+        for d in defs:
+            if d in fills or d.kind != 'assign' or d.value is None or d.node is None:
+                continue
+            args = facts.flatten_lattice(d.value, 'max')
+            if args and len(args) > 1 and any(isinstance(a, ast.Name) and a.id == nm for a in args) and \
+                    ps.cfg.can_reach(fills[0].node, d.node):
+                return d.stmt
     return None
 
 
